@@ -618,6 +618,9 @@ void Interpret::pop(int n) {
     if (config.isIncremental()) {
         if (n < 0) {
             notify_formatted(true, "Incorrect pop command, value is negative.");
+        } else if (static_cast<std::size_t>(n) > main_solver->getAssertionLevel()) {
+            // reject the whole command: popping the levels that do exist first would change the assertion stack
+            notify_formatted(true, "Attempt to pop beyond the top of the stack");
         } else {
             bool success = true;
             while (n-- and success) {
